@@ -114,6 +114,8 @@ impl LpSolver {
         value: f64,
         variables: impl Iterator<Item = (Variable, f64)>,
     ) {
+        #[cfg(all(it4innovations_hyperqueue_verif, feature = "highs"))]
+        let variables = crate::verif::sched_c15::tap_row(constraint_type, value, variables);
         if self.verbose {
             let vars: Vec<_> = variables.collect();
             self.print_constraint(&vars, constraint_type, value);
@@ -247,6 +249,8 @@ impl LpSolver {
         value: f64,
         variables: impl Iterator<Item = (Variable, f64)>,
     ) {
+        #[cfg(all(it4innovations_hyperqueue_verif, feature = "highs"))]
+        let variables = crate::verif::sched_c15::tap_row(constraint_type, value, variables);
         self.solver
             .add_constraint(constraint_type, value, variables)
     }
@@ -266,18 +270,24 @@ impl LpSolver {
     #[inline]
     pub fn add_variable(&mut self, weight: f64, min: f64, max: f64) -> Variable {
         let v = self.solver.add_variable(weight, min, max);
+        #[cfg(all(it4innovations_hyperqueue_verif, feature = "highs"))]
+        let v = crate::verif::sched_c15::tap_var(v, weight, 0);
         self.new_var(v, weight)
     }
 
     #[inline]
     pub fn add_bool_variable(&mut self, weight: f64) -> Variable {
         let v = self.solver.add_bool_variable(weight);
+        #[cfg(all(it4innovations_hyperqueue_verif, feature = "highs"))]
+        let v = crate::verif::sched_c15::tap_var(v, weight, 1);
         self.new_var(v, weight)
     }
 
     #[inline]
     pub fn add_nat_variable(&mut self, weight: f64) -> Variable {
         let v = self.solver.add_nat_variable(weight);
+        #[cfg(all(it4innovations_hyperqueue_verif, feature = "highs"))]
+        let v = crate::verif::sched_c15::tap_var(v, weight, 2);
         self.new_var(v, weight)
     }
 }
